@@ -36,6 +36,19 @@ impl ConnIdMapper {
         self.right[usize::from(id)]
     }
 
+    /// Composes two mappers, returning the one that maps `id` to `next(self(id))`.
+    pub fn compose(&self, next: &Self) -> Self {
+        let mut left = Vec::with_capacity(self.left.len());
+        for &id in &self.left {
+            left.push(next.left(id));
+        }
+        let mut right = Vec::with_capacity(self.right.len());
+        for &id in &self.right {
+            right.push(next.right(id));
+        }
+        Self::new(left, right)
+    }
+
     pub fn from_iter<L, R>(lmap: L, rmap: R) -> Result<Self>
     where
         L: IntoIterator<Item = u16>,
